@@ -27,6 +27,8 @@ const POOL: &[&[u8]] = &[
     b"A:F?\n",
     b"Z?\n",
     b"\n",
+    // a query after a payload that contains a newline: the answer is owed only at the real terminator
+    b"A:K #11\n;:B?\n",
 ];
 
 /// response owed for one query call as logged (`name(args)`), with newline
@@ -329,7 +331,7 @@ fn main() {
     let t0 = Instant::now();
     let thorough = args.thorough();
     let k = args.get_usize("k", if thorough { 4 } else { 3 });
-    let ns: Vec<usize> = if thorough { vec![4, 8, 9, 10, 16, 41, 64] } else { vec![8, 16, 64] };
+    let ns: Vec<usize> = if thorough { vec![4, 8, 9, 10, 16, 47, 64] } else { vec![8, 16, 64] };
     let cuts = if thorough { 3 } else { 2 };
     let mut streams: Vec<Vec<u8>> = vec![];
     for len in 1..=k {
